@@ -2631,6 +2631,8 @@ class Processor:
                         data[stripped_attrs] = Nodes.build_next_node(
                             yaml_path, depth + 1, value
                         )
+                        for referer in getattr(data, "_ref", []):
+                            referer.update_key_value(stripped_attrs)
                         next_translated_path = (
                             translated_path + YAMLPath.escape_path_section(
                                 str(stripped_attrs),
@@ -2743,6 +2745,11 @@ class Processor:
                         if (hasattr(val, "anchor") or
                                 (data is parent and k == parentref)):
                             data[k] = replacement_node
+
+                            # Hashes which inherit this key through a YAML
+                            # Merge Key must see the new value, too
+                            for referer in getattr(data, "_ref", []):
+                                referer.update_key_value(k)
                     else:
                         recurse(val, parent, parentref, reference_node,
                                 replacement_node)
